@@ -764,7 +764,7 @@ func castArr(opts *options, v value) ([]value, Error) {
 // as a list of one entry).
 func castArrRef(opts *options, v value) ([]value, bool, Error) {
 	if sub, ok := v.(cfgSub); ok {
-		return sub.c.fields.array(), false, nil
+		return castSubArr(sub)
 	}
 	if ref, ok := v.(*cfgDynamic); ok {
 		// the reference is only under evaluation while it is resolved here
@@ -787,7 +787,8 @@ func castArrRef(opts *options, v value) ([]value, bool, Error) {
 		}
 
 		if sub, ok := unrefed.(cfgSub); ok {
-			return sub.c.fields.array(), true, nil
+			arr, _, err := castSubArr(sub)
+			return arr, true, err
 		}
 	}
 
@@ -802,6 +803,16 @@ func castArrRef(opts *options, v value) ([]value, bool, Error) {
 	}
 
 	return []value{v}, false, nil
+}
+
+// castSubArr: the list part of a config. An object that has named settings
+// only is no list - it used to be read as the empty list, silently.
+func castSubArr(sub cfgSub) ([]value, bool, Error) {
+	arr := sub.c.fields.array()
+	if len(arr) == 0 && len(sub.c.fields.dict()) > 0 {
+		return nil, false, raisePathErr(ErrTypeNoArray, sub.c.metadata, "", sub.c.ctx.path("."))
+	}
+	return arr, false, nil
 }
 
 func reifyPrimitive(
